@@ -42,7 +42,7 @@ func c06InFlight(r *enginesim.Result) bool {
 
 func TestC06(t *testing.T) {
 	c := evid.New("C06")
-	c.Rule = "per generated history (funding prefix + 1-2 rounds of 1-3 concurrent writes of all kinds, keys and references, one choice list): the fault-free run, then one run per crash position 0..K and one run per failing InsertLogs call (exhaustive per history). evaluations = runs. Oracle per run: each success has exactly one entry with the returned content, persisted before the answer; errors leave nothing; no orphan entry; ids stay dense across the restart. Non-trivial = the crash/fault struck while a request was between chaining and its answer; distinct by operations + gate trace + fault position."
+	c.Rule = "two modes. Sampled (19 of 20 cases): one run of a generated history of up to 3 rounds with crash points, a store fault and the death grace drawn with the plan. Enumerated (1 of 20): per generated history (funding prefix + 1-2 rounds of 1-3 concurrent writes of all kinds, keys and references, one choice list): the fault-free run, then one run per crash position 0..K and one run per failing InsertLogs call (exhaustive per history). evaluations = runs. Oracle per run: each success has exactly one entry with the returned content, persisted before the answer; errors leave nothing; no orphan entry; ids stay dense across the restart. Non-trivial = the crash/fault struck while a request was between chaining and its answer; distinct by operations + gate trace + fault position."
 	c.Assumptions = []string{engineAssumption, "a crash is modelled as: the generation's goroutines stop at their next scheduling point, un-inserted batches vanish, a new Commander is built over the same store"}
 	cfg := enginesim.DefaultConfig()
 	cfg.MaxRounds = 2
@@ -51,9 +51,21 @@ func TestC06(t *testing.T) {
 	cfg.FailingPct = 10
 	cfg.Choices = 120
 	cfg.MetaFirstPct = 20
+	// sampled histories: up to 3 rounds, crash points and a store fault drawn with the plan
+	scfg := cfg
+	scfg.MaxRounds = 3
+	scfg.Crashes = 2
+	scfg.Faults = 1
+	scfg.Choices = 200
 	enumerated := 0
 	runProp(t, c, func(rt *rapid.T) {
-		plan := enginesim.GenPlan(rt, cfg)
+		sampled := rapid.IntRange(0, 19).Draw(rt, "sampled") != 0
+		var plan *enginesim.Plan
+		if sampled {
+			plan = enginesim.GenPlan(rt, scfg)
+		} else {
+			plan = enginesim.GenPlan(rt, cfg)
+		}
 		identicalKeyGroups(plan)
 		base := runEngine(t, rt, c, plan)
 		if base == nil {
@@ -74,6 +86,11 @@ func TestC06(t *testing.T) {
 				}
 			}
 			return true
+		}
+		if sampled {
+			judge(base, "sampled")
+			c.Add("histories_sampled", 1)
+			return
 		}
 		if !judge(base, "nofault") {
 			return
